@@ -298,7 +298,7 @@ CHECKS["C12"] = {
     "units": [
         plain("regress", "^TestRegress"),
         rapid("direct", "^TestDirect$", 4000, 150000, qs=4, ts=16),
-        rapid("e2e", "^TestSwapMelt$", 360, 10000, qs=12, ts=16),
+        rapid("e2e", "^TestSwapMelt$", 600, 16000, qs=12, ts=16),
         rapid("wallet", "^TestWalletP2PK$", 120, 4000, qs=4, ts=16),
     ],
 }
